@@ -5,6 +5,8 @@
 (* A rejected record is printed as a MISMATCH and the rest of that run is skipped.              *)
 EXTENDS VmInstr, Json, IOUtils, TLC
 
+D == INSTANCE VmData WITH DMax <- 0, st <- <<>>, gl <- <<>>      \* the data side: contents of the value stack, globals
+
 Rec == ndJsonDeserialize(IOEnv.TRACE)
 N == Len(Rec)
 
@@ -15,8 +17,9 @@ VARIABLES l,       \* next record
           ctx,     \* suspended loops: <<[pend, F]>> of the instructions that called a host function
           cur,     \* frames after the last instruction
           last,    \* name of the last instruction of the innermost loop
-          prog     \* [labels, end]
-tvars == <<l, mode, pend, ctx, cur, last, prog, ip, h, F>>
+          prog,    \* [labels, end]
+          glob     \* global variables written so far in this run (id -> value); only followed when the records carry values
+tvars == <<l, mode, pend, ctx, cur, last, prog, glob, ip, h, F>>
 
 IsStart(j) == Rec[j].e \in {"RunStart", "Prog"}
 NextStart(j) == IF \E q \in (j + 1)..N : IsStart(q)
@@ -38,20 +41,29 @@ Admitted(r) ==
 Show(S) == IF Cardinality(S) > 8 THEN {} ELSE {[ip |-> x.ip, h |-> x.h, c |-> Len(x.F), fo |-> Top(x.F).off] : x \in S}
 Reject(r, why) == /\ PrintT(<<"MISMATCH", ToJson([line |-> l, event |-> r, why |-> why, after |-> pend.A,
                                                   admitted |-> IF r.e = "I" THEN Show(Admitted(r)) ELSE {}])>>)
-                  /\ l' = NextStart(l) /\ mode' = "skip" /\ pend' = None /\ ctx' = <<>> /\ cur' = MainF /\ last' = "" /\ UNCHANGED prog
-Skip == l' = l + 1 /\ UNCHANGED <<mode, pend, ctx, cur, last, prog>>
-Stop == l' = l + 1 /\ mode' = "skip" /\ pend' = None /\ ctx' = <<>> /\ cur' = MainF /\ last' = "" /\ UNCHANGED prog
+                  /\ l' = NextStart(l) /\ mode' = "skip" /\ pend' = None /\ ctx' = <<>> /\ cur' = MainF /\ last' = "" /\ UNCHANGED <<prog, glob>>
+Skip == l' = l + 1 /\ UNCHANGED <<mode, pend, ctx, cur, last, prog, glob>>
+Stop == l' = l + 1 /\ mode' = "skip" /\ pend' = None /\ ctx' = <<>> /\ cur' = MainF /\ last' = "" /\ UNCHANGED <<prog, glob>>
 
-TInit == l = 1 /\ mode = "skip" /\ pend = None /\ ctx = <<>> /\ cur = MainF /\ last = "" /\ prog = [labels |-> <<>>, starts |-> {}, end |-> 0]
+\* ---- the data side (VmData): only when both the last instruction of this loop and the record carry the stack contents
+HasData(r) == pend.k = "instr" /\ "s" \in DOMAIN pend.A /\ "s" \in DOMAIN r
+DataOk(r) == \E P \in D!Expected(pend.A, pend.A.s, glob, cur, r.ip, r.c) : D!Like(P, r.s)
+DataWhy(r) == IF ~D!Isolated(pend.A, pend.A.s, r.s, cur) THEN "an instruction changed values below the frame of the function that executes it"
+              ELSE IF pend.A.op = "CallNative" \/ (pend.A.op = "CallFunction" /\ r.c = Len(cur))
+                   THEN "after a host call the caller's values differ from what they were, less the parameters, plus the result"
+                   ELSE "the values on the stack differ from every admitted effect of the instruction"
+GlobNext(r) == IF HasData(r) THEN D!GlobalsAfter(pend.A, pend.A.s, glob) ELSE glob
+
+TInit == l = 1 /\ mode = "skip" /\ pend = None /\ ctx = <<>> /\ cur = MainF /\ last = "" /\ prog = [labels |-> <<>>, starts |-> {}, end |-> 0] /\ glob = <<>>
          /\ ip = 0 /\ h = 0 /\ F = MainF
 TNext ==
   /\ l <= N /\ UNCHANGED <<ip, h, F>>
   /\ LET r == Rec[l] IN
      CASE r.e = "Prog" -> /\ l' = l + 1 /\ prog' = [labels |-> r.labels, starts |-> {r.starts[j] : j \in 1..Len(r.starts)}, end |-> r.end]
-                          /\ mode' = "skip" /\ pend' = None /\ ctx' = <<>> /\ cur' = MainF /\ last' = ""
+                          /\ mode' = "skip" /\ pend' = None /\ ctx' = <<>> /\ cur' = MainF /\ last' = "" /\ glob' = <<>>
        [] r.e = "RunStart" ->
             \* run() pushes the frame of main; values the host pushed before are main's arguments
-            l' = l + 1 /\ mode' = "start" /\ pend' = None /\ ctx' = <<>> /\ cur' = MainF /\ last' = "" /\ UNCHANGED prog
+            l' = l + 1 /\ mode' = "start" /\ pend' = None /\ ctx' = <<>> /\ cur' = MainF /\ last' = "" /\ glob' = <<>> /\ UNCHANGED prog
        [] r.e = "Note" -> Skip
        [] r.e = "Panic" -> Stop
        [] mode = "skip" -> Skip
@@ -60,19 +72,21 @@ TNext ==
             IF mode = "start"
             THEN IF r.ip = 0 /\ r.c = 1 /\ r.fo = 0 /\ r.d = 1
                  THEN /\ l' = l + 1 /\ mode' = "run" /\ cur' = MainF /\ pend' = [k |-> "instr", A |-> r] /\ last' = r.op
-                      /\ UNCHANGED <<ctx, prog>>
+                      /\ UNCHANGED <<ctx, prog, glob>>
                  ELSE Reject(r, "a run starts at instruction 0 in the frame of main")
             ELSE IF r.d # Len(ctx) + 1 THEN Reject(r, "instruction of another nesting depth than the innermost loop")
             ELSE IF \E s \in Admitted(r) : Matches(s, r)
-                 THEN LET s == CHOOSE s \in Admitted(r) : Matches(s, r) IN
-                      /\ l' = l + 1 /\ cur' = s.F /\ pend' = [k |-> "instr", A |-> r] /\ last' = r.op /\ UNCHANGED <<mode, ctx, prog>>
+                 THEN IF HasData(r) /\ ~DataOk(r) THEN Reject(r, DataWhy(r))
+                      ELSE LET s == CHOOSE s \in Admitted(r) : Matches(s, r) IN
+                      /\ l' = l + 1 /\ cur' = s.F /\ pend' = [k |-> "instr", A |-> r] /\ last' = r.op /\ glob' = GlobNext(r)
+                      /\ UNCHANGED <<mode, ctx, prog>>
                  ELSE Reject(r, "instruction pointer, stack height or call frames differ from every admitted successor")
        [] r.e = "Reenter" ->
             \* run_function: a trap frame and the callee's frame, both resuming at the final Exit; the callee's
             \* arguments are the topmost values, so its frame starts somewhere at or below the height
             IF mode = "start" \/ r.c # Len(cur) + 2 \/ last \notin {"CallNative", "CallFunction"}
             THEN Reject(r, "re-entry happens inside a host call and pushes exactly two call frames")
-            ELSE /\ l' = l + 1 /\ UNCHANGED <<mode, cur, prog, last>>
+            ELSE /\ l' = l + 1 /\ UNCHANGED <<mode, cur, prog, last, glob>>
                  /\ ctx' = Append(ctx, [pend |-> pend, F |-> cur, last |-> last])
                  /\ pend' = [k |-> "reenter", A |-> [ip |-> 0, op |-> "", n |-> 0, a |-> <<>>, h |-> r.h]]
        [] r.e = "ReenterEnd" ->
@@ -83,12 +97,12 @@ TNext ==
                  \* function's parameters, plus its result), exactly as after a successful call
                  LET top == ctx[Len(ctx)] IN
                  /\ l' = l + 1 /\ pend' = top.pend /\ cur' = top.F /\ last' = top.last
-                 /\ ctx' = SubSeq(ctx, 1, Len(ctx) - 1) /\ UNCHANGED <<mode, prog>>
+                 /\ ctx' = SubSeq(ctx, 1, Len(ctx) - 1) /\ UNCHANGED <<mode, prog, glob>>
             ELSE LET top == ctx[Len(ctx)] IN
                  \* the callee returned through the trap frame to the final Exit: only the trap frame is left
                  IF last # "Exit" \/ r.c # Len(top.F) + 1 THEN Reject(r, "a callee ends at the final Exit with only the trap frame left")
                  ELSE /\ l' = l + 1 /\ pend' = top.pend /\ cur' = top.F /\ last' = top.last
-                      /\ ctx' = SubSeq(ctx, 1, Len(ctx) - 1) /\ UNCHANGED <<mode, prog>>
+                      /\ ctx' = SubSeq(ctx, 1, Len(ctx) - 1) /\ UNCHANGED <<mode, prog, glob>>
        [] r.e = "RunEnd" ->
             \* a successful run ends with Exit in the outermost loop (or ran no instruction at all)
             IF r.ok /\ mode = "run" /\ ~(last = "Exit" /\ ctx = <<>>) THEN Reject(r, "a run ended successfully without reaching Exit in the outermost loop")
